@@ -124,33 +124,33 @@ Definition attr_of (rl : Z -> rel) (t : itri) : Z * Z * Z * Z :=
   (rOrig (rl (meshID t)), rXform (rl (meshID t)), rFlags (rl (meshID t)), face_out t).
 
 (* the attributes of the re-imported triangles, seen through the re-imported relation *)
-Lemma import_attrs : forall rl startID l pre last n k,
+Lemma import_attrs : forall rl startID suf l pre last n k,
   pre_inv pre last n ->
   (forall t, In t l -> 0 <= coplanarID t) ->
   0 <= k ->
-  map (attr_of (import_relation rl startID (pre ++ run_pairs last n l)))
+  map (attr_of (import_relation rl startID (pre ++ run_pairs last n l ++ suf)))
       (import_tris rl startID last n k l) = map (attr_of rl) l.
 Proof.
-  intros rl startID l. induction l as [|t l IH]; intros pre last n k Hpre Hc Hk; [reflexivity|].
+  intros rl startID suf l. induction l as [|t l IH]; intros pre last n k Hpre Hc Hk; [reflexivity|].
   cbn [import_tris run_pairs map].
   set (n' := if meshID t =? last then n else n + 1).
   assert (Hn' : n <= n') by (unfold n'; destruct (meshID t =? last); lia).
   f_equal.
   - (* the head triangle *)
     unfold attr_of at 1. cbn [meshID face_out faceID coplanarID].
-    assert (Hl : import_relation rl startID (pre ++ (n', meshID t) :: run_pairs (meshID t) n' l) (startID + n') = rl (meshID t)).
+    assert (Hl : import_relation rl startID (pre ++ ((n', meshID t) :: run_pairs (meshID t) n' l) ++ suf) (startID + n') = rl (meshID t)).
     { unfold import_relation. replace (startID + n' - startID) with n' by lia.
       rewrite assocz_app. destruct (assocz n' pre) as [r|] eqn:Ea.
       - apply assocz_in in Ea. destruct (Hpre _ _ Ea) as [H1 H2].
         assert (n' = n) by lia. specialize (H2 H). subst r.
         unfold n' in H. destruct (meshID t =? last) eqn:Em; [apply Z.eqb_eq in Em; rewrite Em; reflexivity | lia].
-      - cbn [assocz]. rewrite Z.eqb_refl. reflexivity. }
+      - cbn [app assocz]. rewrite Z.eqb_refl. reflexivity. }
     rewrite Hl. unfold attr_of. f_equal.
     assert (Hf : 0 <= face_out t).
     { unfold face_out. destruct (0 <=? faceID t) eqn:E; [apply Z.leb_le; exact E | apply Hc; left; reflexivity]. }
     unfold face_out at 1. cbn [faceID coplanarID]. apply Z.leb_le in Hf. rewrite Hf. reflexivity.
-  - replace (pre ++ (n', meshID t) :: run_pairs (meshID t) n' l)
-      with ((pre ++ [(n', meshID t)]) ++ run_pairs (meshID t) n' l) by (rewrite <- app_assoc; reflexivity).
+  - replace (pre ++ ((n', meshID t) :: run_pairs (meshID t) n' l) ++ suf)
+      with ((pre ++ [(n', meshID t)]) ++ run_pairs (meshID t) n' l ++ suf) by (rewrite <- app_assoc; reflexivity).
     apply IH.
     + intros a b Hin. apply in_app_or in Hin. destruct Hin as [Hin | [E | []]].
       * destruct (Hpre _ _ Hin) as [H1 H2]. split; [lia|]. intros E.
@@ -194,13 +194,87 @@ Proof.
   assert (E : sorted_tris (reimport startID s) = isort (import_tris (relation s) startID (-1) (-1) 0 (sorted_tris s))) by reflexivity.
   unfold export_attrs at 1. rewrite E. clear E.
   rewrite isort_id.
-  - change (relation (reimport startID s)) with
-      (import_relation (relation s) startID ([] ++ run_pairs (-1) (-1) (sorted_tris s))).
-    apply (import_attrs (relation s) startID (sorted_tris s) [] (-1) (-1) 0).
+  - replace (relation (reimport startID s)) with
+      (import_relation (relation s) startID ([] ++ run_pairs (-1) (-1) (sorted_tris s) ++ []))
+      by (cbn [app]; rewrite app_nil_r; reflexivity).
+    apply (import_attrs (relation s) startID [] (sorted_tris s) [] (-1) (-1) 0).
     + intros a b [].
     + intros t Ht. apply Hcp. apply Hin. exact Ht.
     + lia.
   - apply import_sorted; [intros t Ht; apply Hc; apply Hin; exact Ht | exact Hsrt].
+Qed.
+
+(* ---------- trailing empty runs ---------- *)
+Lemma last_run_ge : forall l last n, n <= last_run last n l.
+Proof.
+  induction l as [|t l IH]; intros last n; cbn [last_run]; [lia|].
+  specialize (IH (meshID t) (if meshID t =? last then n else n + 1)).
+  destruct (meshID t =? last); lia.
+Qed.
+
+Lemma run_pairs_le_last : forall l last n a b, In (a, b) (run_pairs last n l) -> a <= last_run last n l.
+Proof.
+  induction l as [|t l IH]; intros last n a b H; [destruct H|].
+  cbn [run_pairs last_run] in *. destruct H as [E | H].
+  - inversion E; subst. apply last_run_ge.
+  - apply IH in H. exact H.
+Qed.
+
+Lemma assocz_notin : forall v l, (forall a b, In (a, b) l -> a <> v) -> assocz v l = None.
+Proof.
+  intros v l. induction l as [|[a b] l IH]; intros H; [reflexivity|].
+  cbn [assocz]. destruct (a =? v) eqn:E.
+  - apply Z.eqb_eq in E. exfalso. apply (H a b (or_introl eq_refl)). exact E.
+  - apply IH. intros a' b' Hin. apply (H a' b'). right. exact Hin.
+Qed.
+
+Lemma empty_pairs_keys : forall extra j a b, In (a, b) (empty_pairs j extra) -> j <= a.
+Proof.
+  induction extra as [|m r IH]; intros j a b H; [destruct H|].
+  cbn [empty_pairs] in H. destruct H as [E | H]; [inversion E; lia | apply IH in H; lia].
+Qed.
+
+Lemma empty_attrs_model : forall rl startID front extra j,
+  (forall a b, In (a, b) front -> a < j) ->
+  export_empty_attrs (import_relation rl startID (front ++ empty_pairs j extra)) (new_ids startID j extra)
+  = export_empty_attrs rl extra.
+Proof.
+  intros rl startID front extra. revert front. induction extra as [|m r IH]; intros front j Hf; [reflexivity|].
+  cbn [empty_pairs new_ids export_empty_attrs map]. f_equal.
+  - unfold import_relation. replace (startID + j - startID) with j by lia.
+    rewrite assocz_app, (assocz_notin j front).
+    + cbn [assocz]. rewrite Z.eqb_refl. reflexivity.
+    + intros a b Hin E. specialize (Hf a b Hin). lia.
+  - replace (front ++ (j, m) :: empty_pairs (j + 1) r) with ((front ++ [(j, m)]) ++ empty_pairs (j + 1) r)
+      by (rewrite <- app_assoc; reflexivity).
+    apply IH. intros a b Hin. apply in_app_or in Hin. destruct Hin as [Hin | [E | []]].
+    + specialize (Hf a b Hin). lia.
+    + inversion E; subst. lia.
+Qed.
+
+Lemma runs_roundtrip_empty_model : forall s startID extra,
+  isOriginal s = false ->
+  (forall t, In t (tris s) -> rOrig (relation s (meshID t)) = origID t) ->
+  (forall t, In t (tris s) -> 0 <= coplanarID t) ->
+  let srt := sorted_tris s in
+  let rl' := reimport_relation_e (relation s) startID srt extra in
+  map (attr_of rl') (isort (import_tris (relation s) startID (-1) (-1) 0 srt)) = map (attr_of (relation s)) srt /\
+  export_empty_attrs rl' (reimport_extra startID srt extra) = export_empty_attrs (relation s) extra.
+Proof.
+  intros s startID extra Ho Hc Hcp srt rl'.
+  assert (Hin : forall t, In t srt -> In t (tris s)).
+  { intros t Ht. unfold srt, sorted_tris in Ht. rewrite Ho in Ht. apply in_isort. exact Ht. }
+  assert (Hsrt : sortedk srt) by (unfold srt, sorted_tris; rewrite Ho; apply isort_sorted).
+  split.
+  - rewrite isort_id.
+    + unfold rl', reimport_relation_e.
+      apply (import_attrs (relation s) startID (empty_pairs (last_run (-1) (-1) srt + 1) extra) srt [] (-1) (-1) 0).
+      * intros a b [].
+      * intros t Ht. apply Hcp. apply Hin. exact Ht.
+      * lia.
+    + apply import_sorted; [intros t Ht; apply Hc; apply Hin; exact Ht | exact Hsrt].
+  - unfold rl', reimport_relation_e, reimport_extra. apply empty_attrs_model.
+    intros a b Hab. apply run_pairs_le_last in Hab. lia.
 Qed.
 
 (* ---------- merge vectors ---------- *)
